@@ -342,7 +342,12 @@ func runC03(c *Ctx) {
 			c.check(guarded, "R3", "send only when registered", pos(send), "the write is skipped when putChannel refused", "the request is written even though registration was refused (connection already closed)")
 			// same packet: sid = p.id() and the packet written is p
 			sidOK := false
-			for _, l := range leavesOf(argsOf(callOf(putc))[1]) {
+			putCh, putID := chanAndIDArgs(callOf(putc))
+			if putCh == nil || putID == nil {
+				c.und("R3", "registered id is the sent packet's id", pos(putc), "cannot tell the channel and the id among putChannel's arguments")
+				putCh, putID = argsOf(callOf(putc))[0], argsOf(callOf(putc))[1]
+			}
+			for _, l := range leavesOf(putID) {
 				if l.Kind == leafCallResult && calleeName(l.Call) == "id" {
 					if pr, ok := recvOf(l.Call).(*ssa.Parameter); ok {
 						for _, l2 := range leavesOf(argsOf(callOf(send))[0]) {
@@ -355,7 +360,7 @@ func runC03(c *Ctx) {
 			}
 			c.check(sidOK, "R3", "registered id is the sent packet's id", pos(putc), "sid = p.id() of the packet written", "the id registered is not the id of the packet that is written")
 			chOK := false
-			if pr, ok := argsOf(callOf(putc))[0].(*ssa.Parameter); ok && pr == dr.Params[1] {
+			if pr, ok := putCh.(*ssa.Parameter); ok && pr == chanParamOf(dr) {
 				chOK = true
 			}
 			c.check(chOK, "R3", "registered channel is the caller's", pos(putc), "the caller's channel is registered", "a channel other than the caller's is registered")
@@ -799,7 +804,7 @@ func runC04(c *Ctx) {
 						}
 					}
 				}
-				good := len(sends) == 1 && resultHasOnlyErr(sends[0].X) && sends[0].Chan == ssa.Value(put.Params[1]) && !body.Dominates(upd.Block())
+				good := len(sends) == 1 && resultHasOnlyErr(sends[0].X) && chanParamOf(put) != nil && sends[0].Chan == ssa.Value(chanParamOf(put)) && !body.Dominates(upd.Block())
 				c.check(good, "R3", "closed arm notifies once and refuses", p.Pos(body.Instrs[0].Pos()), "one error result to the caller's channel, no registration", "after close, putChannel does not answer the caller exactly once with an error (or still registers the request)")
 				// returns false there
 				retFalse := true
@@ -1881,4 +1886,30 @@ func checkFramingReportsWriteErrors(c *Ctx, rule string) {
 			"after a Write failed sendPacket can return a nil error: the request is taken for sent, its caller waits for a reply on a connection that is gone")
 	}
 	c.check(n >= 2, rule, "Write calls of sendPacket", p.Pos(fn.Pos()), fmt.Sprintf("%d Write calls", n), fmt.Sprintf("only %d Write calls found in sendPacket (header and payload expected)", n))
+}
+
+// chanAndIDArgs: the channel argument and the uint32 argument of a call (of putChannel), whatever their order.
+func chanAndIDArgs(cc *ssa.CallCommon) (ch, id ssa.Value) {
+	for _, a := range argsOf(cc) {
+		if _, isChan := a.Type().Underlying().(*types.Chan); isChan && ch == nil {
+			ch = a
+		}
+		if isBasicKind(types.Uint32)(a.Type()) && id == nil {
+			id = a
+		}
+	}
+	return
+}
+
+// chanParamOf: the channel-typed parameter of a method (receiver excluded).
+func chanParamOf(fn *ssa.Function) *ssa.Parameter {
+	for i, prm := range fn.Params {
+		if i == 0 && fn.Signature.Recv() != nil {
+			continue
+		}
+		if _, isChan := prm.Type().Underlying().(*types.Chan); isChan {
+			return prm
+		}
+	}
+	return nil
 }
